@@ -89,6 +89,21 @@ def power_lattice(rng, tier):
     # bundle bounds strictly inside power cells with a non-flat shape
     one('p-regions-misaligned', copy.deepcopy(t), gap_model='flow',
         power_order=1, ncell=2)
+    # two planes closer together than one step, with different linear
+    # power on the two sides of the lower one: a requested plane just above
+    # a power-cell boundary, a power cell thinner than the step, the top of
+    # the bundle just above a power-cell boundary
+    one('p-plane-just-above-cell-bound', bundle_type(2), power_order=1,
+        cell_bounds=[0.0, 0.3, 0.6],
+        setup={'axial_plane': [0.3012, 0.1007]})
+    one('p-thin-cell', bundle_type(2), power_order=1,
+        cell_bounds=[0.0, 0.3, 0.3011, 0.6], zero_cells=(1,))
+    tt = add_regions(bundle_type(2), L,
+                     lower=dict(model='simple', vf_coolant=0.3),
+                     upper=dict(model='simple', vf_coolant=0.35),
+                     rods=[0.15, 0.4513])
+    one('p-bundle-top-just-above-cell-bound', tt, gap_model='flow',
+        power_order=1, cell_bounds=[0.0, 0.15, 0.3, 0.45, 0.6])
     one('p-lowfi', bundle_type(3, use_low_fidelity_model=True,
                                low_fidelity_model='simple'),
         gap_model='flow', ncell=3, power_order=2)
